@@ -165,7 +165,9 @@ func (e EmailVerify) End(w http.ResponseWriter, r *http.Request) error {
 
 	givenToken, _ := authboss.GetSession(r, authboss.Session2FAAuthToken)
 
-	if 1 != subtle.ConstantTimeCompare([]byte(wantToken), []byte(givenToken)) {
+	// A session that never requested a token holds none: an absent token must
+	// not compare equal to an absent (empty) submission.
+	if len(givenToken) == 0 || 1 != subtle.ConstantTimeCompare([]byte(wantToken), []byte(givenToken)) {
 		ro := authboss.RedirectOptions{
 			Code:         http.StatusTemporaryRedirect,
 			Failure:      e.Localizef(r.Context(), authboss.TxtInvalid2FAVerificationToken),
